@@ -1369,7 +1369,7 @@ PROPS['C16'] = dict(
     trusted_base=COMMON_TRUST,
     assumptions=['segmentation independence is a property of the model by construction (the model never sees the split points); '
                  'for the implementation it is exhibited by the correspondence over generated segmentations, not proved',
-                 'that FlacStreamWriter emits frames of the domain FrameWf none is exhibited (every written frame is read back by the real reader and the model), not proved: the writer side is not modelled'],
+                 'that FlacStreamWriter emits frames of the domain FrameWf none is tested on every written frame (executable frameWfB, proved sound, plus re-serialization to the same bytes), not proved: the writer side is not modelled'],
 )
 
 C01_THEOREMS = ['Flac.C01.stereo_leftside_inverse', 'Flac.C01.stereo_sideright_inverse', 'Flac.C01.stereo_midside_inverse',
